@@ -361,7 +361,8 @@ func (c *twoPhaseCommitter) commitFlushedMutations(bo *retry.Backoffer) error {
 
 	// async resolve the rest locks.
 	commitBo := retry.NewBackofferWithVars(c.store.Ctx(), CommitSecondaryMaxBackoff, c.txn.vars)
-	c.resolveFlushedLocks(commitBo, c.pipelinedCommitInfo.pipelinedStart, c.pipelinedCommitInfo.pipelinedEnd, true)
+	// pipelinedEnd is the largest flushed key itself: the resolved range must include it.
+	c.resolveFlushedLocks(commitBo, c.pipelinedCommitInfo.pipelinedStart, kv.NextKey(c.pipelinedCommitInfo.pipelinedEnd), true)
 	return nil
 }
 
